@@ -3,7 +3,12 @@
 package netsim
 
 import (
+	"os"
+	"runtime"
+	"strconv"
+	"strings"
 	"sync"
+	"sync/atomic"
 	"time"
 
 	"github.com/lightninglabs/neutrino"
@@ -20,7 +25,14 @@ import (
 // Only a loop that comes round again at the same virtual instant is slowed
 // down: the first few iterations per instant run undisturbed.
 func init() {
+	if s, err := strconv.ParseUint(os.Getenv("VERIF_SHARD_SEED"), 10, 64); err == nil {
+		schedBase = s
+	}
 	neutrino.VerifYield = func(point string) {
+		if strings.HasPrefix(point, "sched:") {
+			schedYield(point)
+			return
+		}
 		now := time.Now()
 		yieldMu.Lock()
 		st := yieldState[point]
@@ -43,6 +55,8 @@ func init() {
 		yieldMu.Lock()
 		yieldState = map[string]*yieldPoint{}
 		yieldMu.Unlock()
+		schedRun.Add(1)
+		schedStep.Store(0)
 	}
 }
 
@@ -55,3 +69,48 @@ var (
 	yieldMu    sync.Mutex
 	yieldState = map[string]*yieldPoint{}
 )
+
+// The "sched:" points sit between the individual store updates and
+// notifications of the block manager's multi-step operations (filter header
+// write, rollback, header write), some of them under client locks. Any delay
+// there is a legal schedule, so the harness stretches a pseudo-randomly chosen
+// subset of them by yielding the processor a number of times: this widens the
+// windows in which another client goroutine can interleave. No virtual-time
+// sleep is used, because a goroutine waiting for a sync.Mutex held across
+// such a sleep would freeze the bubble.
+var (
+	schedBase uint64
+	schedRun  atomic.Uint64
+	schedStep atomic.Uint64
+	// SchedOff disables the perturbation (used by self-tests).
+	SchedOff atomic.Bool
+)
+
+func schedYield(point string) {
+	if SchedOff.Load() {
+		return
+	}
+	x := schedBase ^ (schedRun.Load() * 0x9e3779b97f4a7c15) ^ (schedStep.Add(1) * 0xbf58476d1ce4e5b9)
+	for i := 0; i < len(point); i++ {
+		x = (x ^ uint64(point[i])) * 0x100000001b3
+	}
+	x ^= x >> 31
+	x *= 0x94d049bb133111eb
+	x ^= x >> 29
+	n := 0
+	switch r := x % 100; {
+	case r < 45:
+		n = 0
+	case r < 70:
+		n = 20
+	case r < 85:
+		n = 300
+	case r < 95:
+		n = 3000
+	default:
+		n = 30000
+	}
+	for i := 0; i < n; i++ {
+		runtime.Gosched()
+	}
+}
